@@ -8,6 +8,15 @@ TB = ("Trusted: Lean 4.33.0 kernel; axioms propext/Quot.sound/Classical.choice o
       "working tree on every run (differential, exhaustive on the small axes, sampled elsewhere); Go stdlib semantics written into the model.")
 
 CLAIMS = {
+ "C02": dict(
+   text="Lean theorems (Properties/C02.lean): for every well-formed response value of FC1-6/15/16/23 (byte count = payload length 1..255, arbitrary payload bytes, any transaction/unit id) the per-function parser, the dispatcher and (RTU) the CRC-checking dispatcher return exactly that value from its encoding, so the re-encoding is the frame; ANY 9-byte TCP / 5-byte RTU frame with the high bit of the function byte set is returned as the typed exception carrying unit, function-128 and code (or ErrInvalidCRC), never a value; a byte-count response whose length disagrees with its byte count is an error. FC17's variable layout is covered by the correspondence check only. Tie to the code: every byte count 0..255 x actual length (-2..+2) x FC1/2/3/4/23/17 x TCP/RTU x all parse paths, every length of the fixed-size responses, all 128x256 exception frames.",
+   ref="DESIGN.md §3 C02", technique="Lean 4 proof (symbolic evaluation of response parsers on encoded frames) + differential correspondence check"),
+ "C11": dict(
+   text="Lean theorems (Properties/C11.lean): lookups before the start address and beyond the last bit are errors for every payload/start/address; inside the window isBitSet returns bit i%8 of byte len-1-i/8, which equals the Modbus layout (bit i%8 of byte i/8 = CoilsToBytes' layout, proved: write_readback) exactly outside the known-finding region KF-C11-byte-order (the code indexes bytes from the end; pinned by the repository's IsCoilSet tests); witness and negation of the full statement are theorems. Tie to the code: IsCoilSet/IsInputSet on payloads of 1..250 bytes, starts across the address space, addresses inside, before and beyond; CoilsToBytes for every length 0..2000.",
+   ref="DESIGN.md §3 C11", technique="Lean 4 proof (bit arithmetic, case analysis) + differential correspondence check"),
+ "C18": dict(
+   text="Lean theorems (Properties/C18.lean): every prefix <8 bytes of any encoded request is 'too short'; every prefix >=8 bytes of an encoded request other than FC17 is accepted with expected length = frame length (FC17's 8-byte request is rejected by pduLen<3: known finding, test-pinned, witness theorem); if the classifier accepts a header and the announced number of bytes is present, ParseTCPRequest either succeeds or returns an error that encodes to a 9-byte exception with the frame's transaction id, unit id, function code and code 1 or 3; unsupported function codes are classified with the matching illegal-function exception. Tie to the code: prefixes of frames of all constructors; 8-byte headers over length fields 0..300+boundaries (thorough 0..65535) x function codes 0..255 x protocol ids, each followed by ParseTCPRequest on a body of the announced length.",
+   ref="DESIGN.md §3 C18", technique="Lean 4 proof (closed form of the classifier, error-shape invariant over all request parsers) + differential correspondence check"),
  "C09": dict(
    text="Lean theorems (Properties/C09.lean): C09_roundtrip_partial - for every request the constructors build from specification-legal arguments (outside the known-finding region FC1/FC2 quantity 126..2000, which the library's own parsers refuse; test-pinned) all six parse paths (per-function and dispatcher for TCP; per-function, dispatcher, CRC-checking dispatcher for RTU; per-function RTU without the CRC trailer) return exactly that request, for any spare capacity; accepted_* - whatever any request parser accepts consists of the frame's own bytes at the specified offsets with quantities inside the limits, so out-of-range frames are never decoded. Tie to the code: constructor -> Bytes -> every parse path on all quantities 0..2200 (thorough 0..65535), all coil counts, all payload lengths; frames with every out-of-range quantity through per-function parsers and dispatchers.",
    ref="DESIGN.md §3 C09", technique="Lean 4 proof (symbolic evaluation of parsers on encoded frames; decoder soundness) + differential correspondence check"),
